@@ -846,6 +846,14 @@ func CoverageSnapshot() Coverage {
 	return c
 }
 
+// Thru is spliced around value-returning sync/atomic calls: the operation has
+// happened, the statement it belongs to has not finished - a pre-emption point
+// inside the expression.
+func Thru[T any](v T, site uint32) T {
+	Yield(site)
+	return v
+}
+
 // ---- seams for blocking primitives (none exist in the pinned tree) ----
 
 // LockSeam replaces x.Lock(): spin on TryLock, yielding to other tasks.
